@@ -9,6 +9,8 @@ From Verif Require Store.Model Store.Check Store.CheckConc.
 
 From Verif Require Sched.Model.
 
+From Verif Require Wire.Model.
+
 (* area id -> checker *)
 Definition dispatch (area : N) (v : val) : N :=
   match area with
@@ -21,6 +23,7 @@ Definition dispatch (area : N) (v : val) : N :=
   | 16%N => Cobs.Model.check_val v
   | 20%N => Store.CheckConc.check_c20 v
   | 14%N => Sched.Model.check_val v
+  | 12%N => Wire.Model.check_val v
   | _ => 98%N
   end.
 
